@@ -13,6 +13,8 @@ func init() { register("C07", checkC07) }
 
 func checkC07(c *Ctx) {
 	r := c.R
+	r.Rule("R10.3", "(shared with C10) own attributes registered through option forms stay: an argument applied as an option is consumed, it is not collected as a leftover argument too")
+	r.Rule("R10.9", "(shared with C10) own attributes belong to one logger: an unnamed child is a new logger (the name given decides alone whether an existing child is returned)")
 	r.Rule("R05.9", "(shared with C05) each key once: the de-duplication merges two members exactly when their Key() strings are equal (nothing else - not their kind - keeps two members of one key apart)")
 	r.Rule("R09.1", "(shared with C09) the members printed are this group's own: no field of the pooled encoder is read before the current record (or group) wrote it")
 	r.Rule("R10.2", "(shared with C10) the logger's registered context keys: each With-form (WithContextKeys included) applies its setting to the new child and leaves the receiver alone")
@@ -48,6 +50,9 @@ func checkC07(c *Ctx) {
 		c10Frames(c, p, m)
 		contextKeysRegistered(c, p)
 		attrsTraversal(c, p, "R07.6")
+		argsPairing(c, p, "R07.1")
+		childNameDecision(c, p, "R10.9")
+		optionConsumed(c, p, "R10.3")
 		ctxKeysTraversal(c, p, "R07.6")
 		c10WithSet(c, p, m)
 	}
